@@ -185,8 +185,9 @@ def composeTypeCovered : Coded → Except PErr Bytes
 
 def typeCoveredCodec : Codec Coded := ⟨parseTypeCovered, composeTypeCovered⟩
 
-/-- `parse_timestamp(name, item_size=4)` / `compose_timestamp(value, item_size=4)` -/
-def ts4Codec : Codec (Option Nat) := ⟨parseTimestamp .network false 4, composeTimestamp .network 4⟩
+/-- an instant of `DnsRecordRrsig`: `parse_numeric(name, 4, cls._parse_instant)` — every 32-bit value is
+an instant (seconds since the epoch) — and `compose_timestamp(value, item_size=4)` of a `datetime` -/
+def instantCodec : Codec Nat := ⟨parseNum .network 4, fun t => composeTimestamp .network 4 (some t)⟩
 
 structure Rrsig where
   typeCovered : Coded
@@ -200,21 +201,18 @@ structure Rrsig where
   signature : Bytes
 deriving Repr, DecidableEq
 
-abbrev RrsigTuple := Coded × Nat × Nat × Nat × Option Nat × Option Nat × Nat × List Bytes × Bytes
+abbrev RrsigTuple := Coded × Nat × Nat × Nat × Nat × Nat × Nat × List Bytes × Bytes
 
 def rrsigInner : Codec RrsigTuple :=
-  seq typeCoveredCodec (seq algCodec (seq (num .network 1) (seq (num .network 4) (seq ts4Codec (seq ts4Codec
+  seq typeCoveredCodec (seq algCodec (seq (num .network 1) (seq (num .network 4) (seq instantCodec (seq instantCodec
     (seq (num .network 2) (seq nameCodec rawRest)))))))
 
-/-- `cls(**parser)`: the attrs validators `instance_of(datetime.datetime)` meet `None` when the
-field held `ff ff ff ff` — a `TypeError` -/
+/-- `cls(**parser)` -/
 def rrsigOfTuple (x : RrsigTuple) : Except PErr Rrsig :=
-  match x with
-  | (tc, alg, lb, ttl, some e, some i, kt, name, sig) => .ok ⟨tc, alg, lb, ttl, e, i, kt, name, sig⟩
-  | _ => .error (.crash "TypeError")
+  .ok ⟨x.1, x.2.1, x.2.2.1, x.2.2.2.1, x.2.2.2.2.1, x.2.2.2.2.2.1, x.2.2.2.2.2.2.1, x.2.2.2.2.2.2.2.1, x.2.2.2.2.2.2.2.2⟩
 
 def rrsigToTuple (r : Rrsig) : RrsigTuple :=
-  (r.typeCovered, r.algorithm, r.labels, r.originalTtl, some r.expiration, some r.inception, r.keyTag,
+  (r.typeCovered, r.algorithm, r.labels, r.originalTtl, r.expiration, r.inception, r.keyTag,
     r.signersName, r.signature)
 
 /-- `DnsRecordRrsig` -/
@@ -245,9 +243,22 @@ def parseTxt (bs : Bytes) : Except PErr (Bytes × Nat) :=
   if bs.length < txtHeaderSize then .error (.notEnough ((txtHeaderSize - bs.length : Nat) : Int))
   else (parseTxtLoop bs.length bs).map fun v => (v, bs.length)
 
-/-- `DnsRecordTxt.compose`: ONE character-string -/
-def composeTxt (v : Bytes) : Except PErr Bytes :=
-  if v.all (fun x => x.toNat < 0x80) then composeBytes .network 1 v else .error .invalidValue
+/-- `composer.compose_string(chunk, 'ascii', 1)` -/
+def composeCharString (s : Bytes) : Except PErr Bytes :=
+  if s.all (fun x => x.toNat < 0x80) then composeBytes .network 1 s else .error .invalidValue
+
+/-- `value[offset:offset + n] for offset in range(0, len(value), n)`; every round takes at least one
+octet, so `len` rounds of fuel are never exhausted -/
+def chunks (n : Nat) : Nat → Bytes → List Bytes
+  | 0, _ => []
+  | fuel + 1, v => if v.isEmpty then [] else v.take n :: chunks n fuel (v.drop n)
+
+/-- the slices of `for offset in range(0, max(len(self.value), 1), 255)`: the empty value gives one
+empty slice -/
+def txtChunks (v : Bytes) : List Bytes := if v.isEmpty then [[]] else chunks 255 v.length v
+
+/-- `DnsRecordTxt.compose`: character-strings of at most 255 octets -/
+def composeTxt (v : Bytes) : Except PErr Bytes := composeItems composeCharString (txtChunks v)
 
 def txtCodec : Codec Bytes := ⟨parseTxt, composeTxt⟩
 
@@ -368,9 +379,10 @@ def composeKeyRsa (e m : Nat) : Except PErr Bytes := do
   let mb ← composeMpint (m : Int) w
   pure (h ++ eb ++ mb)
 
-/-- `_compose_public_key_ecdsa`: `key.key_size // 8` is the width `from_coords` chose -/
-def composeKeyEc (x y : Nat) : Except PErr Bytes := do
-  let w ← ecWidth x y
+/-- `_compose_public_key_ecdsa`: both coordinates in the width of the key's curve
+(`key_params.named_group.value.size // 8`) -/
+def composeKeyEc (group x y : Nat) : Except PErr Bytes := do
+  let w := groupBytes group
   let a ← composeMpint (x : Int) w
   let b ← composeMpint (y : Int) w
   pure (a ++ b)
@@ -389,7 +401,7 @@ def composeKeyDsa (p g q y : Nat) : Except PErr Bytes := do
 def composeKey : Key → Except PErr Bytes
   | .rsa e m => composeKeyRsa e m
   | .dsa p g q y => composeKeyDsa p g q y
-  | .ec _ x y => composeKeyEc x y
+  | .ec g x y => composeKeyEc g x y
   | .eddsa _ d => .ok d
 
 structure Dnskey where
